@@ -72,22 +72,29 @@ def _twin(out, zv):
     """the second oracle: optimised form vs alias / computed-callee form (TailTwin)"""
     thorough = vlib.tier() == "thorough"
     runs = [{"module": "MCTailTwin.tla", "cfg": "MCTailTwin.cfg"},
-            {"module": "MCTailTwin.tla", "cfg": "MCTailTwinReuse.cfg", "expect": "violation"},
-            {"module": "MCTailTwin.tla", "cfg": "MCTailTwinLeakKnown.cfg"}]
+            {"module": "MCTailTwin.tla", "cfg": "MCTailTwinReuse.cfg", "expect": "violation"}]
     if thorough:
-        runs += [{"module": "MCTailTwin.tla", "cfg": "MCTailTwinKeep.cfg", "expect": "violation"},
+        runs += [{"module": "MCTailTwin.tla", "cfg": "MCTailTwinLeakKnown.cfg"},
+                 {"module": "MCTailTwin.tla", "cfg": "MCTailTwinKeep.cfg", "expect": "violation"},
                  {"module": "MCTailTwin.tla", "cfg": "MCTailTwinLeak.cfg", "expect": "violation"}]
     flow.mc_runs(out, runs)
     env = {"VERIF_DEVS": _devs()}
     t3 = os.path.join(vlib.scratch(), "twininv.ndjson")
     vlib.run_zv(zv, "tailtwin", ["-mode", "inv"], t3)
-    c3, v3 = flow.validate(out, "tailtwin", "TailTwinTrace.tla", "TailTwinTrace.cfg", t3, zv, replay_args=["-mode", "inv"], env=env)
+    t4 = os.path.join(vlib.scratch(), "twinspace.ndjson")
+    vlib.run_zv(zv, "tailtwin", ["-mode", "space"], t4, timeout=3000)
+    # one TLC run judges both kinds of case (the trace specification tells them apart)
+    t34 = os.path.join(vlib.scratch(), "twin.ndjson")
+    with open(t34, "w") as f:
+        f.write(open(t3).read())
+        f.write(open(t4).read())
+    call, vall = flow.validate(out, "tailtwin", "TailTwinTrace.tla", "TailTwinTrace.cfg", t34, zv, env=env, max_confirm=40)
+    c3 = {i: c for i, c in call.items() if c["kind"] == "inv"}
+    c4 = {i: c for i, c in call.items() if c["kind"] == "space"}
+    v3 = v4 = vall
     skipped = [i for i in c3 if v3[i][0] == "skip"]
     if len(skipped) > len(c3) // 20:
         raise vlib.Inconclusive("%d of %d twin programs not judged (the reference forms disagree)" % (len(skipped), len(c3)))
-    t4 = os.path.join(vlib.scratch(), "twinspace.ndjson")
-    vlib.run_zv(zv, "tailtwin", ["-mode", "space"], t4, timeout=3000)
-    c4, v4 = flow.validate(out, "tailtwin", "TailTwinTrace.tla", "TailTwinTrace.cfg", t4, zv, replay_args=["-mode", "space"], env=env)
     dims = lambda cs, k: len(set(c["spec"][k] for c in cs.values()))
     # what kinds of programs were rejected (only the first rejections are confirmed and reported one by one)
     kinds = collections.Counter()
@@ -95,8 +102,9 @@ def _twin(out, zv):
         for i, c in cs.items():
             if vs[i][0] == "bad":
                 sp = c["spec"]
-                kinds["%s %s: %s/%s/%s/%s%s" % (c["kind"], vs[i][1].split(",")[0].strip(' "'), sp["dk"], sp["shadow"], sp["cf"], sp["pos"],
-                                              "/rebind" if sp["rebind"] >= 0 else "")] += 1
+                what = {"pos": sp["pos"], "call": sp["cf"], "shadow": sp["shadow"] + "/" + sp["cf"], "feat": sp["feat"],
+                        "rebind": sp["key"].split("|")[7]}.get(sp["group"], "")
+                kinds["%s %s: %s %s %s" % (c["kind"], vs[i][1].split(",")[0].strip(' "'), sp["group"], sp["dk"], what)] += 1
     for k, n in sorted(kinds.items())[:200]:
         vlib.log("  tailtwin rejected: %3d x %s" % (n, k))
     some = list(c3.values())[:1]
